@@ -238,10 +238,15 @@ impl SweepCheck {
         g.steps_left = max_steps;
         g.forced_fault = ff;
         g.forced_cancel = fc;
+        // C12: one continuation in three finds a broker that has lost the session
+        let fresh = self.id == "C12" && rng.next() % 3 == 0;
+        let small = rng.next() % 2 == 0;
         if self.epilogue_polls > 0 {
             let mut d = WithEpilogue::new(g, self.epilogue_polls);
             d.round_trip = self.round_trip;
             d.tight_limits = self.id == "C16";
+            d.force_fresh = fresh;
+            d.fresh_small_window = small;
             let (mut log, world) = run_case(&cfg, seed, &mut d, max_steps + self.epilogue_polls + 32);
             log.epilogue = true;
             log.epilogue_from = d.from_step;
@@ -791,6 +796,7 @@ pub fn dead_handle(r: &mut Rng) -> Profile {
     p.w_braw = 2;
     p.w_bpublish = 6;
     p.dead_ops_max = 8;
+    p.dead_invalid_pct = 25;
     p.bad_connack_pct = 3;
     p.max_conns = 3;
     p.cancel_pct = *r.pick(&[0u32, 10]);
@@ -1022,7 +1028,7 @@ pub fn all() -> Vec<Box<dyn Check>> {
         mode: SweepMode::Both,
         plain_from: usize::MAX,
         min_nt: (200, 2000),
-        required: vec!["reconnects_judged", "reconnects_with_inflight_state", "round_trips_completed", "reconnects_with_full_inbound_qos2_table"],
+        required: vec!["reconnects_judged", "reconnects_with_inflight_state", "round_trips_completed", "reconnects_with_full_inbound_qos2_table", "reconnects_with_inflight_state_on_a_broker_that_lost_the_session"],
     }),
     Box::new(SweepCheck {
         id: "C16",
